@@ -72,7 +72,9 @@ func MmapStor(filename string, mode Mode) (*Stor, error) {
 	if mode == Read {
 		remainder := size % mmapChunkSize
 		if remainder > 0 {
-			chunks[last] = chunks[last][:remainder] // last chunk not full
+			// last chunk not full: no capacity beyond the end of the file either,
+			// the mapping beyond it is not backed (reading it is a fatal SIGBUS)
+			chunks[last] = chunks[last][:remainder:remainder]
 		}
 	}
 	// ignore trailing zero bytes (from memory mapping, if truncate failed)
